@@ -188,6 +188,10 @@ func (a *AWSKMS) DecryptKey(ctx context.Context, data []byte) ([]byte, error) {
 		}
 
 		keyBytes, err := a.crypto.Decrypt(kekEn.EncryptedKey, resp.Plaintext)
+
+		// Wipe the plaintext data key now that it has been used
+		internal.MemClr(resp.Plaintext)
+
 		if err != nil {
 			log.Debugf("error crypto decrypt: %s\n", err)
 			continue
